@@ -32,24 +32,35 @@ type env struct {
 	c         *Case
 	mu        sync.Mutex
 	execs     []int              // node executions in start order
+	execRerun []bool             // parallel to execs: the execution asked for an interrupt-and-rerun
 	brLog     map[[2]int][][]int // (node, branch index) -> outcomes in evaluation order
 	producers []*producer
 	sched     [][]string     // batches of completed tasks (node keys) as taskManager.wait returned them (C03 trace hook), first run
-	scheds    [][][]string   // the same for every task manager of the case, in order of first appearance (nested runs, resumed runs)
+	scheds    []callRec      // the same for every task manager of the case, in order of first appearance (nested runs, resumed runs)
 	reruns    map[int]int    // node id -> executions so far of a node with Rerun > 0
 	collected map[string]int // node key -> tasks collected by any run loop of the case (resumed runs included)
 	resumes   int
-	segs      [][][]string // the schedule of every call of the top-level runnable (the first run and every resumed run), in order
-	subScheds [][][]string // the schedules of the nested graph runs, in order of their start
+	segs      []callRec // every call of the top-level runnable that has a task-manager trace (the first run and every resumed run), in order
+	subCalls  []callRec // the calls of the nested graph runs, in order of their start
 	pipes     []func()   // drains every Pipe the harness created (used after an aborted run)
+}
+
+// callRec is one call of a runnable as its task manager shows it: the batches of collected tasks and
+// the tasks that ended with an interrupt of their own (InterruptAndRerun, or an interrupted nested graph).
+type callRec struct {
+	sched [][]string
+	rr    []string
 }
 
 func newEnv(c *Case) *env { return &env{c: c, brLog: map[[2]int][][]int{}, reruns: map[int]int{}} }
 
-func (e *env) exec(idx int) {
+func (e *env) exec(idx int) int {
 	e.mu.Lock()
 	e.execs = append(e.execs, idx)
+	e.execRerun = append(e.execRerun, false)
+	pos := len(e.execs) - 1
 	e.mu.Unlock()
+	return pos
 }
 
 func (e *env) addPipe(closeReader func()) {
@@ -203,11 +214,14 @@ func keyedLambda[I, O any](e *env, idx int) *compose.Lambda {
 		})
 	case "coll":
 		return compose.CollectableLambda(func(ctx context.Context, in *schema.StreamReader[I]) (O, error) {
-			e.exec(idx)
+			pos := e.exec(idx)
 			if spec.Rerun > 0 {
 				e.mu.Lock()
 				k := e.reruns[idx]
 				e.reruns[idx]++
+				if k < spec.Rerun {
+					e.execRerun[pos] = true
+				}
 				e.mu.Unlock()
 				if k < spec.Rerun {
 					in.Close()
@@ -296,13 +310,16 @@ func lambdaOf(e *env, idx int) *compose.Lambda {
 		})
 	}
 	// rerun tells whether this execution asks for an interrupt-and-rerun (it closes its input first)
-	rerun := func(in interface{ Close() }) bool {
+	rerun := func(pos int, in interface{ Close() }) bool {
 		if spec.Rerun == 0 {
 			return false
 		}
 		e.mu.Lock()
 		k := e.reruns[idx]
 		e.reruns[idx]++
+		if k < spec.Rerun {
+			e.execRerun[pos] = true
+		}
 		e.mu.Unlock()
 		if k < spec.Rerun {
 			in.Close()
@@ -313,8 +330,7 @@ func lambdaOf(e *env, idx int) *compose.Lambda {
 	switch spec.Kind {
 	case "xform":
 		return compose.TransformableLambda(func(ctx context.Context, in *schema.StreamReader[M]) (*schema.StreamReader[M], error) {
-			e.exec(idx)
-			if rerun(in) {
+			if rerun(e.exec(idx), in) {
 				return nil, compose.InterruptAndRerun
 			}
 			sr, sw := schema.Pipe[M](spec.Cap)
@@ -325,16 +341,14 @@ func lambdaOf(e *env, idx int) *compose.Lambda {
 		})
 	case "conv":
 		return compose.TransformableLambda(func(ctx context.Context, in *schema.StreamReader[M]) (*schema.StreamReader[M], error) {
-			e.exec(idx)
-			if rerun(in) {
+			if rerun(e.exec(idx), in) {
 				return nil, compose.InterruptAndRerun
 			}
 			return schema.StreamReaderWithConvert(in, func(m M) (M, error) { return m, nil }), nil
 		})
 	case "ident":
 		return compose.TransformableLambda(func(ctx context.Context, in *schema.StreamReader[M]) (*schema.StreamReader[M], error) {
-			e.exec(idx)
-			if rerun(in) {
+			if rerun(e.exec(idx), in) {
 				return nil, compose.InterruptAndRerun
 			}
 			return in, nil
@@ -735,20 +749,14 @@ func runCase(e *env) runOut {
 		var top []bool
 		e.scheds, top = schedulesOf(evs, c19Eager(e.c))
 		if len(e.scheds) > 0 {
-			e.sched = e.scheds[0]
+			e.sched = e.scheds[0].sched
 		}
 		for tm := range e.scheds {
 			if top[tm] {
 				e.segs = append(e.segs, e.scheds[tm])
 			} else {
-				e.subScheds = append(e.subScheds, e.scheds[tm])
+				e.subCalls = append(e.subCalls, e.scheds[tm])
 			}
-		}
-		if e.resumes > 0 && len(e.segs) == e.resumes {
-			// a call that is interrupted before the first nodes after START start submits no task: its
-			// task manager never shows up in the trace. Only the first call can end that way (a resumed
-			// call always starts the restored tasks): it consists of START's pseudo task alone.
-			e.segs = append([][][]string{{}}, e.segs...)
 		}
 		e.collected = map[string]int{}
 		for _, ev := range evs {
@@ -771,12 +779,12 @@ func c19Eager(c *Case) bool { return c.Mode == "workflow" }
 // first task it names is a top-level node. In eager mode (top level of a Workflow only) wait() returns
 // after one task: every task is a batch of its own, including the tasks the waitAll of an interrupt
 // exit collects (the model puts those together again).
-func schedulesOf(evs []compose.VerifC03Event, eagerTop bool) (all [][][]string, top []bool) {
+func schedulesOf(evs []compose.VerifC03Event, eagerTop bool) (all []callRec, top []bool) {
 	var cur [][]string
 	var known []bool
 	for _, ev := range evs {
 		for ev.TM >= len(all) {
-			all = append(all, nil)
+			all = append(all, callRec{})
 			cur = append(cur, nil)
 			top = append(top, false)
 			known = append(known, false)
@@ -788,21 +796,24 @@ func schedulesOf(evs []compose.VerifC03Event, eagerTop bool) (all [][][]string, 
 		eager := eagerTop && top[ev.TM]
 		switch ev.Kind {
 		case "recv":
+			if ev.Err { // the only errors a run survives: the task interrupted itself
+				all[ev.TM].rr = append(all[ev.TM].rr, ev.Key)
+			}
 			if eager {
-				all[ev.TM] = append(all[ev.TM], []string{ev.Key})
+				all[ev.TM].sched = append(all[ev.TM].sched, []string{ev.Key})
 			} else {
 				cur[ev.TM] = append(cur[ev.TM], ev.Key)
 			}
 		case "empty":
 			if len(cur[ev.TM]) > 0 {
-				all[ev.TM] = append(all[ev.TM], cur[ev.TM])
+				all[ev.TM].sched = append(all[ev.TM].sched, cur[ev.TM])
 				cur[ev.TM] = nil
 			}
 		}
 	}
 	for tm := range all {
 		if len(cur[tm]) > 0 {
-			all[tm] = append(all[tm], cur[tm])
+			all[tm].sched = append(all[tm].sched, cur[tm])
 		}
 	}
 	return all, top
